@@ -196,6 +196,22 @@ def degenerate(impl, name, spec, opts, k=2):
             return True
     if probe != 'Spectral' and min(vals[:kk]) <= 1e-6 * scale:
         return True
+    # a row whose un-normalised embedding is numerically null (the centre of a symmetric grid, say) is turned into an
+    # arbitrary unit vector by the default normalisation: its direction is rounding noise, not a function of the input
+    if (opts.get('params') or {}).get('normalized', True):
+        o2 = dict(o)
+        o2['params'] = {'n_components': kk, 'normalized': False}
+        r2 = impl.call('registry', 'run', dict(name=probe, m=spec, opts=o2), timeout=60)
+        if 'ok' not in r2:
+            return True
+        for key in ('embedding_', 'embedding_row_', 'embedding_col_'):
+            e = r2['ok'].get(key)
+            if not e or not isinstance(e[1], list) or not e[1] or not isinstance(e[1][0], list):
+                continue
+            norms = [sum(x * x for x in row) ** 0.5 for row in e[1]]
+            top = max(norms) if norms else 0.0
+            if top > 0 and any(0 < nn <= 1e-7 * top for nn in norms):
+                return True
     return False
 
 
